@@ -1,7 +1,7 @@
 #!/bin/bash
 # runs the quick (or $1) check of every claimed property on the current tree; prints a summary
 tier=${1:-quick}
-cd /verif
+cd "$(dirname "$0")/.."
 props=$(python3 -c "import json; print(' '.join(c['property_id'] for c in json.load(open('MANIFEST.json'))['checks']))")
 fail=0
 for p in $props; do
@@ -10,5 +10,5 @@ for p in $props; do
   echo "$out" | tail -2
   echo "$out" | grep -q "VIOLATION" && fail=1
 done
-git -C /repo status --short | head -3
+git -C "${VERIF_REPO:-/repo}" status --short | head -3
 exit $fail
